@@ -779,24 +779,61 @@ func checkAuthentication(validCredentials []Credentials, expectedRegion string, 
 			slog.DebugContext(r.Context(), "Streaming payload algorithm does not match request signature algorithm")
 			return nil, false
 		}
-		// aws-chunked is a transport encoding, not object metadata: strip it
-		// whether it is the only encoding or the first of several.
-		contentEncodingHeader = stripAwsChunkedContentEncoding(contentEncodingHeader)
-		if contentEncodingHeader != "" {
-			r.Header.Set("Content-Encoding", contentEncodingHeader)
-		} else {
-			r.Header.Del("Content-Encoding")
-		}
-		r.Header.Set("Content-Length", r.Header.Get("x-amz-decoded-content-length"))
-		r.Header.Del("x-amz-decoded-content-length")
-		trailingHeader := contentSHA256 == contentSHA256StreamingUnsignedPayloadTrailing || contentSHA256 == contentSHA256StreamingPayloadTrailing || contentSHA256 == contentSHA256StreamingECDSAPayloadTrailing
-		hasTrailingHeaderWithSignature := contentSHA256 == contentSHA256StreamingPayloadTrailing || contentSHA256 == contentSHA256StreamingECDSAPayloadTrailing
-		skipChunkValidation := contentSHA256 == contentSHA256StreamingUnsignedPayloadTrailing || contentSHA256 == contentSHA256StreamingUnsignedPayload
-		trailerChecksumName := strings.ToLower(strings.TrimSpace(r.Header.Get(trailerHeader)))
-		r.Body = newAwsChunkReadCloser(r.Context(), r.Body, parameters.timestamp, scope.value, parameters.signature, verifier, trailingHeader, hasTrailingHeaderWithSignature, skipChunkValidation, trailerChecksumName)
+		installAwsChunkDecoder(r, contentEncodingHeader, parameters.timestamp, scope.value, parameters.signature, verifier)
 	}
 
 	return &accessKeyId, isSignatureValid
+}
+
+// installAwsChunkDecoder replaces the request body by the decoded payload of an
+// aws-chunked upload and rewrites the headers that describe the transport
+// encoding, so that handlers only ever see the object's bytes.
+func installAwsChunkDecoder(r *http.Request, contentEncodingHeader string, timestamp string, scope string, seedSignature string, verifier signatureVerifier) {
+	contentSHA256 := r.Header.Get(contentSHA256Header)
+	// aws-chunked is a transport encoding, not object metadata: strip it
+	// whether it is the only encoding or the first of several.
+	contentEncodingHeader = stripAwsChunkedContentEncoding(contentEncodingHeader)
+	if contentEncodingHeader != "" {
+		r.Header.Set("Content-Encoding", contentEncodingHeader)
+	} else {
+		r.Header.Del("Content-Encoding")
+	}
+	r.Header.Set("Content-Length", r.Header.Get("x-amz-decoded-content-length"))
+	r.Header.Del("x-amz-decoded-content-length")
+	trailingHeader := contentSHA256 == contentSHA256StreamingUnsignedPayloadTrailing || contentSHA256 == contentSHA256StreamingPayloadTrailing || contentSHA256 == contentSHA256StreamingECDSAPayloadTrailing
+	hasTrailingHeaderWithSignature := contentSHA256 == contentSHA256StreamingPayloadTrailing || contentSHA256 == contentSHA256StreamingECDSAPayloadTrailing
+	skipChunkValidation := contentSHA256 == contentSHA256StreamingUnsignedPayloadTrailing || contentSHA256 == contentSHA256StreamingUnsignedPayload
+	trailerChecksumName := strings.ToLower(strings.TrimSpace(r.Header.Get(trailerHeader)))
+	r.Body = newAwsChunkReadCloser(r.Context(), r.Body, timestamp, scope, seedSignature, verifier, trailingHeader, hasTrailingHeaderWithSignature, skipChunkValidation, trailerChecksumName)
+}
+
+// decodeUnauthenticatedAwsChunkedBody installs the aws-chunked decoder for a
+// request that carries no credentials. Without a signing key only the unsigned
+// streaming payload forms can be decoded; chunk-signed forms are refused.
+func decodeUnauthenticatedAwsChunkedBody(r *http.Request) bool {
+	contentEncodingHeader := r.Header.Get("Content-Encoding")
+	if !hasAwsChunkedContentEncoding(contentEncodingHeader) {
+		return true
+	}
+	contentSHA256 := r.Header.Get(contentSHA256Header)
+	if contentSHA256 != contentSHA256StreamingUnsignedPayload && contentSHA256 != contentSHA256StreamingUnsignedPayloadTrailing {
+		slog.DebugContext(r.Context(), "aws-chunked request without credentials must use an unsigned streaming payload")
+		return false
+	}
+	installAwsChunkDecoder(r, contentEncodingHeader, "", "", "", signatureVerifier{})
+	return true
+}
+
+// MakeAwsChunkedDecodingMiddleware decodes aws-chunked request bodies when
+// request authentication is disabled altogether.
+func MakeAwsChunkedDecodingMiddleware(next http.Handler) http.Handler {
+	return http.HandlerFunc(func(w http.ResponseWriter, r *http.Request) {
+		if !decodeUnauthenticatedAwsChunkedBody(r) {
+			w.WriteHeader(http.StatusBadRequest)
+			return
+		}
+		next.ServeHTTP(w, r)
+	})
 }
 
 type awsChunkReadCloser struct {
@@ -1058,6 +1095,10 @@ func MakeSignatureMiddleware(validCredentials []Credentials, region string, next
 			ctx := context.WithValue(r.Context(), IsAuthenticatedContextKey{}, false)
 			ctx = context.WithValue(ctx, AuthTypeContextKey{}, authTypeForRequest(r))
 			r = r.Clone(ctx)
+			if !decodeUnauthenticatedAwsChunkedBody(r) {
+				w.WriteHeader(http.StatusBadRequest)
+				return
+			}
 			next.ServeHTTP(w, r)
 			return
 		}
